@@ -49,8 +49,8 @@ func paramRetentions(fn *ssa.Function, prm ssa.Value, allowReturn bool, depth in
 	if depth > 3 {
 		return out
 	}
-	alias := map[ssa.Value]bool{prm: true}     // values that are (sub)slices of the parameter
-	cont := map[ssa.Value]bool{}               // containers (arrays/slices of slices, allocs) holding an alias
+	alias := map[ssa.Value]bool{prm: true} // values that are (sub)slices of the parameter
+	cont := map[ssa.Value]bool{}           // containers (arrays/slices of slices, allocs) holding an alias
 	work := []ssa.Value{prm}
 	push := func(v ssa.Value, container bool) {
 		if container {
